@@ -200,6 +200,27 @@ def gen_fn(rng, n):
             yield Case("num_fnapply", [p, b"1", b"2"], model=False, tags=["site:fn4-apply"])
 
 
+def gen_fn0_exhaustive():
+    """sampled functions (type 0), every small shape: m = 1..3 inputs, 0..2 outputs (an empty /Range is accepted by the loader),
+    1..2 samples per dimension, /Order 1 and 3, the sample table complete or empty, input vectors of the matching length (grid
+    corners and a mixed point) and of a non-matching one, the output slice of the matching length and one longer — so that the
+    indexing code of every arm of SampledFunction::apply is reached, also with n_out = 0.  A value or an error, never a panic."""
+    for m in (1, 2, 3):
+        for k_out in (0, 1, 2):
+            for size in (1, 2):
+                for order in (1, 3):
+                    full = k_out * size ** m
+                    for dlen in sorted(set([full, 0, max(0, full - 1)])):
+                        dct = {"FunctionType": 0, "Domain": [0.0, 1.0] * m, "Range": [0.0, 1.0] * k_out, "Size": [size] * m,
+                               "BitsPerSample": 8, "Order": order}
+                        data = bytes((37 * j + 11) % 256 for j in range(dlen))
+                        p = b"p" + canon(dict(dct, Length=len(data))) + data.hex().encode() + b";"
+                        for xs in ([0] * m, [1] * m, [0, 1, 1][:m], [1, 0, 1][:m], [0] * (m - 1), [1] * (m + 1)):
+                            for n_out in (k_out, k_out + 1):
+                                yield Case("num_fnapply", [p, ",".join(map(str, xs)).encode(), d(n_out)], model=False,
+                                           tags=["site:fn0-apply", "fn0:exhaustive"])
+
+
 def gen_objstm(rng, n):
     for i in range(n):
         k = rng.choice([0, 1, 2, 3, 5])
@@ -371,7 +392,7 @@ def generate(rng, tier):
     k = 1 if tier == "quick" else 8
     gens = [gen_ps(rng, 500 * k), gen_diff(rng, 150 * k), gen_fn(rng, 100 * k), gen_objstm(rng, 250 * k), gen_widths(rng, 250 * k),
             gen_crypt(rng, 250 * k), gen_pages(rng, 80 * k), gen_tree(rng, 150 * k), gen_unpredict(rng, 200 * k), gen_fax(rng, 200 * k),
-            gen_xref(rng, 150 * k)]
+            gen_xref(rng, 150 * k), gen_fn0_exhaustive(), gen_annot_pages(), gen_big()]
     for g in gens:
         for c in g:
             yield c
@@ -399,6 +420,51 @@ def generate(rng, tier):
     for o in (b"s", b"t"):
         for ch in (b"c", b"n"):
             yield Case("walk", [o, ch, clique], model=False, tags=["planted", "cycle:descendant-clique"], note="cycle:descendant-clique")
+
+
+def _hist(r):
+    """call histogram of a walk: kind -> (ok, err, panic)"""
+    out = {}
+    if r[0] == "OK" and len(r[1]) > 3:
+        for l in r[1][3].decode("latin1").split("\n"):
+            w = l.split(" ")
+            if len(w) == 4:
+                out[w[0]] = tuple(int(x) for x in w[1:])
+    return out
+
+
+def annot_own_page(r):
+    """Table 164: /P is an indirect reference to the page object with which the annotation is associated — an annotation that
+    names its own page loads, and the page read through it is that page"""
+    if r[0] != "OK":
+        return None                      # (reported by `always`)
+    h = _hist(r)
+    if h.get("page.annots.load", (0, 0, 0))[0] < 1:
+        return "the annotations of a page whose annotation names this very page as /P do not load (%s)" % (h.get("page.annots.load"),)
+    if h.get("page.annot.page.own", (0, 0, 0))[0] < 1:
+        return "an annotation whose /P is its own page was loaded without it: no page is read through Annot.page (%s)" % (
+            {k: v for k, v in h.items() if k.startswith("page.annot")},)
+    return None
+
+
+def gen_annot_pages():
+    """planted fragment: Page /Annots [A], A /P -> every object of the fragment; the walker dereferences Annot.page"""
+    from oracle import hostile
+    for tag, data in hostile.annot_page_cases():
+        own = tag.endswith("own-page")
+        for o in (b"s", b"t"):
+            for ch in (b"c", b"n"):
+                yield Case("walk", [o, ch, data], model=False, check=annot_own_page if own else None, tags=["planted", "annot-p", tag], note=tag)
+
+
+def gen_big():
+    """one big instance of every typed kind the walker loads (hostile.big_instances), caches on and off: the heap-size estimates
+    behind the size-weighted object cache run only there"""
+    from oracle import hostile
+    for tag, data in hostile.big_instances():
+        for o in (b"s", b"t"):
+            for ch in (b"c", b"n"):
+                yield Case("walk", [o, ch, data], model=False, tags=["planted", "big", tag], note=tag)
 
 
 # planted numeric fields that reach sites repaired (and proved) by other areas
